@@ -2,8 +2,8 @@
    The models (model/C14Page.v, C14Box.v, C14Pages.v, C14Pdf.v) are hand transliterations of the code named in
    their headers; harness/p_c14.py compares them with the implementation on every run. *)
 From Coq Require Import ZArith QArith Qminmax List String Bool.
-Require Import WV.model.C14Page WV.model.C14Box WV.model.C14Pages WV.model.C14Pdf.
-Require Import WV.proofs.C14_page WV.proofs.C14_box WV.proofs.C14_pages WV.proofs.C14_pdf.
+Require Import WV.model.C14Page WV.model.C14Box WV.model.C14Pages WV.model.C14Pdf WV.model.C14Doc WV.model.C14Margin.
+Require Import WV.proofs.C14_page WV.proofs.C14_box WV.proofs.C14_pages WV.proofs.C14_pdf WV.proofs.C14_doc WV.proofs.C14_margin.
 Import ListNotations.
 Open Scope string_scope.
 Open Scope list_scope.
@@ -77,6 +77,29 @@ Theorem C14_page_cascade_idempotent sheets pt (k : key) :
   lookup_key k (add_page_declarations sheets pt st) = lookup_key k st.
 Proof. exact (page_cascade_idempotent sheets pt k). Qed.
 Print Assumptions C14_page_cascade_idempotent.
+
+(* `@page A, B, ... { declarations; @top-left { declarations } }` (model of what preprocess_stylesheet registers):
+   a page matched through the k-th selector of the list, whatever k, receives every page-level declaration of the
+   body and every declaration of its margin box, with that selector's specificity ... *)
+Theorem C14_selector_list_body_uniform sels ds mds (k : nat) name ps sel sp pt n v imp :
+  (forall s, In s sels -> parse_selector (fst s) (snd s) <> None) ->
+  nth_error sels k = Some (name, ps) -> parse_selector name ps = Some (sel, sp) -> match_spec sel pt ->
+  (In (n, v, imp) ds ->
+     In ((None, n), (v, (precedence Author imp, sp))) (page_updates (doc_sheets [(sels, ds, mds)]) pt)) /\
+  (In (n, v, imp) mds ->
+     In ((Some "@top-left", n), (v, (precedence Author imp, sp))) (page_updates (doc_sheets [(sels, ds, mds)]) pt)).
+Proof. exact (selector_list_body_uniform sels ds mds k name ps sel sp pt n v imp). Qed.
+Print Assumptions C14_selector_list_body_uniform.
+
+(* ... and nothing else *)
+Theorem C14_selector_list_body_only sels ds mds pt e :
+  In e (page_updates (doc_sheets [(sels, ds, mds)]) pt) ->
+  exists name ps sel sp n v imp,
+    In (name, ps) sels /\ parse_selector name ps = Some (sel, sp) /\ match_spec sel pt /\
+    ((In (n, v, imp) ds /\ e = ((None, n), (v, (precedence Author imp, sp)))) \/
+     (In (n, v, imp) mds /\ e = ((Some "@top-left", n), (v, (precedence Author imp, sp))))).
+Proof. exact (selector_list_body_only sels ds mds pt e). Qed.
+Print Assumptions C14_selector_list_body_only.
 
 (* ================================================================ 2. page box and margin box arithmetic *)
 Open Scope Q_scope.
@@ -209,6 +232,21 @@ Print Assumptions C14_counter_increment_on_page_rule.
 Theorem C14_margin_box_keeps_page_counter st v : untouched st -> margin_counter v st = v.
 Proof. exact (margin_box_keeps_page_counter st v). Qed.
 Print Assumptions C14_margin_box_keeps_page_counter.
+
+(* make_margin_boxes: every margin box works on its own copy of the page state: what the j-th box of a page shows
+   (counters after its own counter-* declarations, quotes from the page's quote depth) is a function of the
+   page's state and of its own declarations, whatever the other margin boxes of the page declare *)
+Theorem C14_margin_box_reads_page_state (st : pstate) (decls : list mdecl) (j : nat) (d : mdecl) :
+  nth_error decls j = Some d ->
+  nth_error (margin_boxes_model st decls) j = Some (box_output st d).
+Proof. exact (margin_box_reads_page_state st decls j d). Qed.
+Print Assumptions C14_margin_box_reads_page_state.
+
+Theorem C14_margin_boxes_independent (st : pstate) (decls decls' : list mdecl) (j : nat) :
+  nth_error decls j = nth_error decls' j ->
+  nth_error (margin_boxes_model st decls) j = nth_error (margin_boxes_model st decls') j.
+Proof. exact (margin_boxes_independent st decls decls' j). Qed.
+Print Assumptions C14_margin_boxes_independent.
 
 (* get_string_or_element_for = css-gcpm-3 string()/element() with first | start | last | first-except *)
 Theorem C14_string_first_last_start_except (st : sstore) (current : nat) (kw : keyword) (first_element_assigns : bool) :
